@@ -59,6 +59,9 @@ type SMTPTxn struct {
 	// precedence over the positional ones.
 	RcptFor    map[string]SMTPReply `json:"rcptFor"`
 	LMTPDotFor map[string]SMTPReply `json:"lmtpDotFor"`
+	// LMTP: break the connection instead of sending per-recipient reply number
+	// LMTPDrop (1-based) after the final dot; 0 = never.
+	LMTPDrop int `json:"lmtpDrop"`
 }
 
 type SMTPServerConfig struct {
@@ -553,6 +556,9 @@ func (s *SMTPServer) handle(raw net.Conn, id int) {
 					}
 					if r, ok := script.LMTPDotFor[rcpts[i]]; ok {
 						rp = r
+					}
+					if script.LMTPDrop != 0 && i+1 == script.LMTPDrop {
+						rp = SMTPReply{Drop: true}
 					}
 					if rp.Drop {
 						c.how = "drop"
